@@ -67,6 +67,8 @@ type c19dNet struct {
 	nodes  []*c19dNode
 	obs    *core.Blockchain // independent ledger
 	obstb  *c20TB
+	hook   func(*config.Blockchain)
+	extra  []*c20TB // fresh ledgers made for cross checks
 	signer neotest.Signer
 	dir    string
 	viol   []string
@@ -122,6 +124,7 @@ func c19dBuild(n int, stateRoot bool, services []int, tweak func(*config.Blockch
 		msAccs = append(msAccs, ma)
 	}
 	net.signer = neotest.NewMultiSigner(msAccs...)
+	net.hook = hook
 	net.obstb = &c20TB{}
 	net.obs, _ = chain.NewSingleWithOptions(net.obstb, &chain.Options{Logger: c20Logger(), BlockchainConfigHook: hook})
 	for _, i := range services {
@@ -171,6 +174,9 @@ func (n *c19dNet) close() {
 		nd.tb.done()
 	}
 	n.obstb.done()
+	for _, tb := range n.extra {
+		tb.done()
+	}
 	os.RemoveAll(n.dir)
 }
 
@@ -833,6 +839,8 @@ func runC19d(args []string) error {
 			var err error
 			if x.Kind == "proposal" {
 				err = c19dRunProposal(co, x.Input)
+			} else if x.Kind == "witness" {
+				err = c19dRunWitness(co, x.Input)
 			} else if x.Kind == "full" {
 				err = c19dRunFull(co, x.Input)
 			} else if x.Kind == "recovery" {
@@ -911,6 +919,16 @@ func runC19d(args []string) error {
 			in := c19dPropInput{StateRoot: r.bool(), Defect: "boundary", Bound: b, Delta: d, Backup: []int{0, 2, 3}[r.intn(3)]}
 			raw, _ := json.Marshal(in)
 			if err := c19dRunProposal(co, raw); err != nil {
+				return err
+			}
+		}
+	}
+	// one block, several equally valid witnesses: every validator completes the block from another M-subset of the commits
+	for _, n := range []int{4, 7} {
+		for off := 0; off < 2; off++ {
+			in := c19dWitInput{N: n, StateRoot: r.bool(), Step: 1 + off + r.intn(2), Txs: r.intn(3)}
+			raw, _ := json.Marshal(in)
+			if err := c19dRunWitness(co, raw); err != nil {
 				return err
 			}
 		}
@@ -1519,5 +1537,242 @@ func c19dRunFull(co *caseOut, raw json.RawMessage) error {
 	}
 	co.add("full", fmt.Sprintf("n%d/%s", in.N, in.Bound), len(counts) > 1, in, map[string]any{"blocks": counts, "proposed": reqCounts},
 		fmt.Sprintf("CFull %d %d %s %s", in.Pool, cap, c20Ints(counts), c20Ints(reqCounts)))
+	return nil
+}
+
+// ---------------- kind "witness" ----------------
+//
+// The block hash does not cover the witness.  Honest validators that complete block N from different M-subsets of the Commit
+// payloads build different, equally valid witnesses.  Two heights are decided with every validator i receiving, besides its
+// own, the commits of the next M-1 validators in steps of Step (so the subsets differ); the blocks as built by EACH validator
+// are collected; then fresh ledgers take the header from one validator's copy and the block from another's, in every order.
+
+type c19dWitInput struct {
+	N         int  `json:"n"`
+	StateRoot bool `json:"state_root"`
+	Step      int  `json:"step"`
+	Txs       int  `json:"txs"`
+}
+
+func (n *c19dNet) fresh() *core.Blockchain {
+	tb := &c20TB{}
+	bc, _ := chain.NewSingleWithOptions(tb, &chain.Options{Logger: c20Logger(), BlockchainConfigHook: n.hook})
+	n.extra = append(n.extra, tb)
+	return bc
+}
+
+// one height in which validator i completes the block from its own commit and those of i+Step, i+2*Step, ... (M in all)
+func (n *c19dNet) witnessHeight(step, txs int, accepts *[]c19dAccept) []*block.Block {
+	h := n.nodes[0].bc.BlockHeight() + 1
+	N := n.n
+	M := smartcontract.GetDefaultHonestNodeCount(N)
+	p0 := int(h) % N
+	for k := 0; k < txs; k++ {
+		tx := n.tx(1_0000000, h+50)
+		for _, nd := range n.nodes {
+			if err := nd.bc.PoolTx(tx); err != nil {
+				panic(err)
+			}
+		}
+	}
+	if n.node(p0).find(0, h, 0) == nil {
+		n.node(p0).drv.Timeout()
+	}
+	req := n.node(p0).find(0, h, 0)
+	if req == nil {
+		n.violate("primary %d does not propose at height %d", p0, h)
+		return nil
+	}
+	var resps [][]byte
+	for i := 0; i < N; i++ {
+		if i != p0 {
+			n.node(i).drv.Deliver(c19dExt(req))
+			r := n.node(i).find(1, h, 0)
+			if r == nil {
+				n.violate("backup %d does not answer a proposal of an honest primary (height %d)", i, h)
+				return nil
+			}
+			resps = append(resps, r)
+		}
+	}
+	commits := make([][]byte, N)
+	for i := 0; i < N; i++ {
+		for _, r := range resps {
+			n.node(i).drv.Deliver(c19dExt(r))
+		}
+		commits[i] = n.node(i).find(2, h, 0)
+		if commits[i] == nil {
+			n.violate("validator %d has all preparations and does not commit (height %d)", i, h)
+			return nil
+		}
+	}
+	blocks := make([]*block.Block, N)
+	for i := 0; i < N; i++ {
+		nd := n.node(i)
+		// a subset of M distinct validators containing i
+		sub := map[int]bool{i: true}
+		for j := (i + step) % N; len(sub) < M; j = (j + step) % N {
+			if sub[j] {
+				j = (j + 1) % N
+			}
+			sub[j] = true
+		}
+		nput := len(nd.put)
+		for j := 0; j < N; j++ {
+			if sub[j] && j != i {
+				nd.drv.Deliver(c19dExt(commits[j]))
+			}
+		}
+		if len(nd.put) != nput+1 {
+			n.violate("validator %d holds M commits and hands %d blocks to its ledger (height %d)", i, len(nd.put)-nput, h)
+			return nil
+		}
+		b := nd.put[nput]
+		blocks[i] = b
+		st := nd.drv.State()
+		a := c19dAccept{Node: i, Height: h, View: int(st.View), Views: st.CommitViews, Signers: n.witnessSigners(b), OwnOK: nd.puterr[nput] == nil, Hash: b.Hash().StringLE()}
+		if n.obs.BlockHeight() < h {
+			a.OtherOK = n.obs.AddBlock(b) == nil
+		} else {
+			a.OtherOK = n.obs.GetHeaderHash(h) == b.Hash() && c19dWitnessOK(n, b)
+		}
+		if !a.OwnOK || !a.OtherOK {
+			n.violate("a ledger rejects the block validator %d completed from its subset of the commits (height %d)", i, h)
+		}
+		*accepts = append(*accepts, a)
+	}
+	for _, nd := range n.nodes {
+		nd.drv.ChainBlock(blocks[nd.i])
+	}
+	return blocks
+}
+
+func c19dRunWitness(co *caseOut, raw json.RawMessage) error {
+	var in c19dWitInput
+	if err := json.Unmarshal(raw, &in); err != nil {
+		return err
+	}
+	if in.N != 7 {
+		in.N = 4
+	}
+	if in.Step < 1 {
+		in.Step = 1
+	}
+	var accepts []c19dAccept
+	var items []string // (mode, accepted)
+	distinct := 0
+	var net *c19dNet
+	if p := catch(func() {
+		var all []int
+		for i := 0; i < in.N; i++ {
+			all = append(all, i)
+		}
+		net = c19dBuild(in.N, in.StateRoot, all, nil)
+		defer net.close()
+		for _, nd := range net.nodes {
+			nd.drv.Start()
+		}
+		b1 := net.witnessHeight(in.Step, in.Txs, &accepts)
+		if b1 == nil {
+			return
+		}
+		b2 := net.witnessHeight(in.Step, 1, &accepts)
+		if b2 == nil {
+			return
+		}
+		wit := map[string]bool{}
+		for _, bs := range [][]*block.Block{b1, b2} {
+			for i, b := range bs {
+				if b.Hash() != bs[0].Hash() {
+					net.violate("validators %d and 0 completed different blocks at height %d", i, b.Index)
+					return
+				}
+			}
+		}
+		for _, b := range b1 {
+			wit[string(b.Script.InvocationScript)] = true
+		}
+		distinct = len(wit)
+		if distinct < 2 {
+			panic("set-up: all validators built the same witness")
+		}
+		M := smartcontract.GetDefaultHonestNodeCount(in.N)
+		rec := func(mode int, ok bool, what string, a, b int) {
+			items = append(items, fmt.Sprintf("(%d,%s)", mode, coqBool(ok)))
+			want := mode <= 2
+			if ok != want {
+				net.violate("one block, two valid witnesses: %s (header/first copy from validator %d, block from validator %d): accepted=%v", what, a, b, ok)
+			}
+		}
+		pairs := 0
+		for a := 0; a < in.N; a++ {
+			for b := 0; b < in.N; b++ {
+				if a == b || bytes.Equal(b1[a].Script.InvocationScript, b1[b].Script.InvocationScript) {
+					continue
+				}
+				if in.N == 7 && (a*7+b)%4 != in.Step%4 {
+					continue // a quarter of the 42 ordered pairs
+				}
+				pairs++
+				// header first from A, block from B
+				l := net.fresh()
+				if err := l.AddHeaders(&b1[a].Header); err != nil {
+					panic(fmt.Sprintf("AddHeaders of a committed header: %v", err))
+				}
+				err := l.AddBlock(b1[b])
+				rec(0, err == nil && l.BlockHeight() == 1, "header known, then the block with another valid witness", a, b)
+				// negative controls on a ledger that knows A's header: B's block with M-1 signatures / with a signature for another block
+				l2 := net.fresh()
+				_ = l2.AddHeaders(&b1[a].Header)
+				short := *b1[b]
+				short.Script = transaction.Witness{InvocationScript: bytes.Clone(b1[b].Script.InvocationScript[:66*(M-1)]), VerificationScript: b1[b].Script.VerificationScript}
+				rec(3, l2.AddBlock(&short) == nil, "header known, then the block with M-1 signatures", a, b)
+				foreign := *b1[b]
+				inv := bytes.Clone(b1[b].Script.InvocationScript)
+				copy(inv[:66], b2[b].Script.InvocationScript[:66]) // a signature of the same validator set over the NEXT block
+				foreign.Script = transaction.Witness{InvocationScript: inv, VerificationScript: b1[b].Script.VerificationScript}
+				rec(4, l2.AddBlock(&foreign) == nil, "header known, then the block with a signature that is not over it", a, b)
+				if l2.BlockHeight() != 0 {
+					net.violate("a refused block changed the ledger")
+				}
+				// block from A, then block from B: already known, nothing changes
+				l3 := net.fresh()
+				if err := l3.AddBlock(b1[a]); err != nil {
+					panic(err)
+				}
+				err = l3.AddBlock(b1[b])
+				rec(1, err != nil && l3.BlockHeight() == 1 && l3.GetHeaderHash(1) == b1[a].Hash(), "the block, then the same block with another witness", a, b)
+				// two headers from A, then both blocks from B
+				l4 := net.fresh()
+				if err := l4.AddHeaders(&b1[a].Header, &b2[a].Header); err != nil {
+					panic(fmt.Sprintf("AddHeaders of two committed headers: %v", err))
+				}
+				e1 := l4.AddBlock(b1[b])
+				e2 := l4.AddBlock(b2[b])
+				rec(2, e1 == nil && e2 == nil && l4.BlockHeight() == 2, "two headers known, then the two blocks with other valid witnesses", a, b)
+			}
+		}
+		if pairs == 0 {
+			panic("set-up: no pair of validators with different witnesses")
+		}
+	}); p != "" {
+		return fmt.Errorf("harness failure in witness case %s: %s", string(raw), p)
+	}
+	for _, v := range net.viol {
+		co.violation("witness", v, in, map[string]any{"distinct_witnesses": distinct})
+	}
+	for _, a := range accepts {
+		var vs, ss []string
+		for _, v := range a.Views {
+			vs = append(vs, coqZi(int64(v))+"%Z")
+		}
+		for _, s := range a.Signers {
+			ss = append(ss, coqZi(int64(s))+"%Z")
+		}
+		co.add("stale", fmt.Sprintf("n%d/subset", in.N), true, map[string]any{"case": in, "accept": a.Node, "height": a.Height}, a,
+			fmt.Sprintf("CWitness %d %d %s %s %s %s", in.N, a.View, coqList(vs), coqList(ss), coqBool(a.OwnOK), coqBool(a.OtherOK)))
+	}
+	co.add("witness", fmt.Sprintf("n%d", in.N), distinct > 1, in, map[string]any{"distinct_witnesses": distinct, "checks": len(items)},
+		fmt.Sprintf("CCross %s", coqList(items)))
 	return nil
 }
